@@ -685,29 +685,61 @@ func checkC06(p *Prog, l *Ledger) {
 			nLines++
 			key := p.FuncKey(fn) + "#rterror(" + describe(c.Call.Args[1]) + ")"
 			tok := c.Call.Args[0]
+			// where the token comes from: through loads, address-taken copies (&operator), fields of a struct that
+			// carries it (an operand-pair handed in as a parameter) and the variables a function literal captured
 			root := tok
-			for {
-				if u, ok := root.(*ssa.UnOp); ok && u.Op == token.MUL {
-					root = u.X
+			for hops := 0; hops < 12; hops++ {
+				switch x := root.(type) {
+				case *ssa.UnOp:
+					if x.Op == token.MUL {
+						root = x.X
+						continue
+					}
+				case *ssa.FieldAddr:
+					root = x.X
 					continue
+				case *ssa.Field:
+					root = x.X
+					continue
+				case *ssa.Alloc:
+					var stored ssa.Value
+					n := 0
+					for _, r := range *x.Referrers() {
+						if s, ok := r.(*ssa.Store); ok && s.Addr == ssa.Value(x) {
+							stored = s.Val
+							n++
+						}
+					}
+					if n == 1 {
+						if _, lit := stored.(*ssa.Const); !lit {
+							root = stored
+							continue
+						}
+					}
+				case *ssa.FreeVar:
+					// the variable of the enclosing function that the literal closes over
+					if par := x.Parent().Parent(); par != nil {
+						idx := -1
+						for i, fv := range x.Parent().FreeVars {
+							if fv == x {
+								idx = i
+							}
+						}
+						var bound ssa.Value
+						nmk := 0
+						instrsOf(par, func(pin ssa.Instruction) {
+							if mk, ok := pin.(*ssa.MakeClosure); ok && mk.Fn == ssa.Value(x.Parent()) && idx >= 0 && idx < len(mk.Bindings) {
+								bound = mk.Bindings[idx]
+								nmk++
+							}
+						})
+						if nmk == 1 && bound != nil {
+							root = bound
+							continue
+						}
+					}
 				}
 				break
-			}
-			if al, ok := root.(*ssa.Alloc); ok {
-				// address-taken copy of a parameter (&operator): look through the single store
-				var stored ssa.Value
-				n := 0
-				for _, r := range *al.Referrers() {
-					if s, ok := r.(*ssa.Store); ok && s.Addr == al {
-						stored = s.Val
-						n++
-					}
-				}
-				if n == 1 {
-					if prm, ok := stored.(*ssa.Parameter); ok {
-						root = prm
-					}
-				}
 			}
 			if _, isParam := root.(*ssa.Parameter); isParam {
 				l.Discharge("C06/S4-line-provenance", key, p.InstrPos(in), "token parameter "+describe(tok)+" passed through (callers pass the node's operator/name token)", true)
